@@ -666,6 +666,9 @@ func (dc *ClientDnsConnection) SendFragmentSizeTest(fragsize uint32, timeout tim
 	req := &commands.TestDownstreamFragmentSizeRequest{
 		UserId:       dc.userId,
 		FragmentSize: fragsize,
+		// command, cache, user id and the encoded size take 13 characters: fill the name up to what a query
+		// carrying upstream data may use, so that the answer is as large as answers to such queries are
+		Padding: util.GetLongestDataString(dc.Serializer.Domain) - 13,
 	}
 	resp, err := dc.Query(req, timeout)
 	if err != nil {
